@@ -280,7 +280,11 @@ class Dense(Spec):
         return {"op": "width", "cls": self.lean, "len": 2 ** p["n"]}
 
     def requested(self, args, kw):
-        o = kw.get("opt_params") or {}
+        o = dict(kw.get("opt_params") or {})
+        for k_, exact_values in (("lr", (0, None)), ("svd", ("regular", None)), ("global_phase", (True, None)), ("lib", (None,)),
+                                 ("strategy", ("greedy",)), ("target_state", (0,))):
+            if k_ in o and o[k_] in exact_values:
+                o.pop(k_)      # explicit default value: still the exact preparation from |0..0>
         if set(o) - {"unitary_scheme", "iso_scheme", "partition", "scheme"}:
             return None        # approximate (lr, fidelity loss), phase-free (global_phase=False) or other start state (UCG)
         return np.asarray(args[0], dtype=complex)
@@ -309,6 +313,8 @@ class Mixed(Spec):
         if p.get("probs"):
             pr = r.uniform(0.1, 1.0, size=p["k"])
             kw["probabilities"] = list((pr / pr.sum()).tolist())
+        if p.get("opt") is not None:
+            kw["opt_params"] = copy.deepcopy(p["opt"])
         return [ens], kw
 
     def entry(self, host, args, kw, qubits):
@@ -350,7 +356,8 @@ class Sparse(Spec):
 
     def width_op(self, p):
         o = p.get("opt") or {}
-        aux = bool(o.get("aux", False)) if self.lean == "pivot" else bool(o.get("with_aux", True))
+        v = o.get("aux") if self.lean == "pivot" else o.get("with_aux")
+        aux = bool(v) if v is not None else (self.lean != "pivot")     # a missing key and an explicit None are the default
         return {"op": "width", "cls": self.lean, "n": p["n"], "m": p["m"], "aux": aux}
 
 
@@ -736,12 +743,32 @@ def run_pure(ctx, case):
 
 # ---- functions that are not gate classes: unitary, isometry.decompose, schmidt_decomposition, BAA, cnot counts
 
+def _typed_matrix(r, rows, cols, how):
+    """Unitary / isometry of a given operand type: complex Haar (None), real orthogonal float64 ('real'), int64 permutation
+    ('int'), nested Python list ('list'), Fortran-ordered complex ('fortran')."""
+    if how == "real":
+        q, rr = np.linalg.qr(r.normal(size=(rows, rows)))
+        return np.ascontiguousarray((q * np.sign(np.diag(rr)))[:, :cols])
+    if how == "int":
+        return np.eye(rows, dtype=np.int64)[r.permutation(rows)][:, :cols].copy()
+    if how == "list":
+        return haar_unitary(r, rows)[:, :cols].tolist()
+    if how == "fortran":
+        return np.asfortranarray(haar_unitary(r, rows)[:, :cols])
+    return np.ascontiguousarray(haar_unitary(r, rows)[:, :cols])
+
+
 def fn_call(name, p, r):
     """-> (callable, args, kwargs) for the pure-function checks."""
     n = p["n"]
     if name == "unitary":
         from qclib.unitary import unitary
-        return unitary, [haar_unitary(r, 2 ** n)], {"decomposition": p.get("scheme", "qsd")}
+        kw = {"decomposition": p.get("scheme", "qsd")}
+        if "iso" in p:
+            kw["iso"] = p["iso"]
+        if "a2" in p:
+            kw["apply_a2"] = p["a2"]
+        return unitary, [_typed_matrix(r, 2 ** n, 2 ** n, p.get("dtype"))], kw
     if name == "unitary.cnot_count":
         from qclib.unitary import cnot_count
         kw = {"decomposition": p.get("scheme", "qsd"), "method": p.get("method", "exact")}
@@ -752,6 +779,8 @@ def fn_call(name, p, r):
         return cnot_count, [haar_unitary(r, 2 ** n)], kw
     if name == "isometry.decompose":
         from qclib.isometry import decompose
+        if p.get("dtype"):
+            return decompose, [_typed_matrix(r, 2 ** n, 2 ** p.get("mcols", 0), p["dtype"])], {"scheme": p.get("scheme", "ccd")}
         q = haar_unitary(r, 2 ** n)[:, : 2 ** p.get("mcols", 0)]
         return decompose, [np.ascontiguousarray(q)], {"scheme": p.get("scheme", "ccd")}
     if name == "isometry.decompose.vec":
@@ -1081,7 +1110,7 @@ def run_alphabet_tie(ctx, case):
                      case, kind="assumption")
 
 
-RUNNERS = {"width": run_width, "place": run_place, "inverse": run_inverse, "pure": run_pure, "purefn": run_fn,
+RUNNERS = {"requested": lambda ctx, case: run_sparse_requested(ctx, case), "width": run_width, "place": run_place, "inverse": run_inverse, "pure": run_pure, "purefn": run_fn,
            "helper": run_helper, "pqm": run_pqm, "alphabet": run_alphabet_tie}
 
 
@@ -1508,6 +1537,443 @@ def branch_cases(ctx):
     return cases
 
 
+# ---- boundary-value coverage: inputs AT and next to every size / count / option boundary of the anchored entry points
+
+BOUNDARIES_COVERED = {
+    "gates/initialize.py:43-53 num_qubits = log2(len(params))": "declared width at n = 1, 2, 3 for every dense class "
+                                                                "(width sweep from nmin) + placements at the two smallest n",
+    "gates/initialize_sparse.py:33-34 num_qubits = len(first key)": "n = 1, 2, 3 for every sparse class, m = 1, 2, 3",
+    "gates/initialize_mixed.py:33 ceil(log2(len(params[0]))) + ceil(log2(len(params)))":
+        "k = 1, 2, 3, 4, 5, 8, 9 (the control-register size changes at 2^j + 1) at n = 1, 2; placements at k = 1, 4, 5",
+    "*.py `if qubits is None`": "every static initialize: qubits=None (host = width), explicit natural list, reversed list, "
+                                "permuted list; host = width, width+1, width+2",
+    "*.py `if opt_params is None` / `opt_params.get(k) is None`": "None, {}, partial dicts, explicit default values",
+    "*.py `if label is None`": "None, 'L15', '' (falsy but given)",
+    "pivot.py:54-56 width += max(ceil(log2 m) - 1, 0)": "m = 2 (0 work qubits; with aux only when no pivot step is needed - otherwise outside the domain, noted), 3, 4, 5, 7, 8, 9, 15, 16, 17, 31, 32, 33; aux on/off",
+    "pivot.py:90 non_zero <= 2": "m = 2, 3 (m = 1 is outside the class's domain: IndexError, noted)",
+    "pivot.py:191 num_qubits >= 5 and control_size <= control_limit": "n = 4, 5, 6 with m = 8, 9 (3 vs 4 controls), aux off",
+    "cvoqram.py:66-67, 80 with_aux": "n = 1 (empty work register), 2, 3, 4 with and without aux, placement incl. n = 4",
+    "cvoqram.py:92 k < len(params) - 1": "m = 1, 2, 3",
+    "fnpoints.py:124/135 range(2, n)": "n = 2 (loop empty), 3 (one pass), placement at both",
+    "lowrank.py:120 num_qubits < 2": "n = 1, 2", "lowrank.py:134/140 e_bits > 0 / range(e_bits)": "product (rank 1), rank 2 (lr = 2 at "
+                                                                                                 "n = 4), full rank",
+    "unitary.py:68 size > 4": "2x2, 4x4, 8x8 for qsd / csd / qr, iso = 0 / 1, apply_a2 on / off, real / integer / list input",
+    "isometry.py:49 len(iso.shape) == 1, :149 log_lines == log_cols": "vector, 1 column, 2^n columns at n = 1, 2, 3; real and "
+                                                                      "Fortran-ordered input (defensive copy)",
+}
+
+
+def _bsubsets(w, full):
+    """Ordered qubit lists at the boundary of the host size: host = w, w+1, w+2; natural, reversed, permuted."""
+    nat = list(range(w))
+    out = [("host=w natural explicit list", w, nat)]
+    if w >= 2:
+        out.append(("host=w reversed", w, nat[::-1]))
+    out.append(("host=w+1 natural low", w + 1, nat))
+    out.append(("host=w+1 natural high", w + 1, [q + 1 for q in nat]))
+    if w >= 2:
+        out.append(("host=w+1 reversed", w + 1, [q + 1 for q in nat][::-1]))
+    if full:
+        out.append(("host=w+2 natural middle", w + 2, [q + 1 for q in nat]))
+        out.append(("host=w+2 reversed high", w + 2, [q + 2 for q in nat][::-1]))
+        if w >= 2:
+            gap = [0] + [q + 2 for q in nat[1:]]
+            out.append(("host=w+2 permuted with gap", w + 2, gap[1:] + gap[:1]))
+    return out
+
+
+def _width_of(name, p):
+    spec = REG[name]
+    args, kw = spec.inputs(p, _rng(1))
+    return spec.build(args, kw).num_qubits
+
+
+def boundary_small_params():
+    """(class, p) at the two smallest sizes each class accepts."""
+    out = []
+    for name, spec in REG.items():
+        if isinstance(spec, Dense):
+            for n in (spec.nmin, spec.nmin + 1):
+                out.append((name, {"n": n, "opt": None, "vec": "haar"}))
+    out += [("MixedInitialize", {"n": 1, "k": 1, "classical": True, "reset": False}),
+            ("MixedInitialize", {"n": 1, "k": 2, "classical": True, "reset": False}),
+            ("MixedInitialize", {"n": 2, "k": 3, "classical": True, "reset": False, "probs": True}),
+            ("MixedInitialize", {"n": 2, "k": 2, "classical": False, "reset": False}),
+            ("MergeInitialize", {"n": 1, "m": 1}), ("MergeInitialize", {"n": 1, "m": 2}),
+            ("MergeInitialize", {"n": 2, "m": 2}), ("MergeInitialize", {"n": 2, "m": 3}),
+            ("PivotInitialize", {"n": 1, "m": 2}), ("PivotInitialize", {"n": 2, "m": 2, "opt": {"aux": False}}),
+            ("PivotInitialize", {"n": 2, "m": 3}), ("PivotInitialize", {"n": 2, "m": 3, "opt": {"aux": True}}),
+            ("CvoqramInitialize", {"n": 1, "m": 1, "opt": {"with_aux": True}}),
+            ("CvoqramInitialize", {"n": 1, "m": 2, "opt": {"with_aux": False}}),
+            ("CvoqramInitialize", {"n": 2, "m": 2, "opt": {"with_aux": True}}),
+            ("CvoqramInitialize", {"n": 2, "m": 3, "opt": {"with_aux": False}}),
+            ("FnPointsInitialize", {"n": 2, "m": 1}), ("FnPointsInitialize", {"n": 2, "m": 3})]
+    return out
+
+
+def boundary_cases(ctx):
+    """Boundary-value cases (see BOUNDARIES_COVERED).  Every case is an ordinary width / place / inverse / pure / purefn
+    case, so it is tied (width rows) and judged by the same oracles as the sweep."""
+    rng = ctx.rng
+    cases = []
+
+    def add(fam, case):
+        case.setdefault("seed", rng.getrandbits(31))
+        cases.append(case)
+        ctx.count("boundary:" + fam)
+
+    # (1) host size = width, width+1, width+2; natural / reversed / permuted lists; every static initialize + append
+    for name, p in boundary_small_params():
+        try:
+            w = _width_of(name, p)
+        except Exception:
+            add("smallest size", {"kind": "width", "cls": name, "p": p})      # reported by the width runner
+            continue
+        add("smallest size", {"kind": "width", "cls": name, "p": p})
+        seed = rng.getrandbits(31)
+        for i, (fam, m, sub) in enumerate(_bsubsets(w, full=w <= 5)):
+            entry = ("initialize", "append", "initialize")[i % 3]
+            style = ("int", "int", "qubit")[i % 3]
+            add(fam, {"kind": "place", "cls": name, "p": p, "m": m, "subset": sub, "entry": entry, "style": style, "seed": seed})
+        add("host=w qubits=None", {"kind": "place", "cls": name, "p": p, "m": w, "subset": list(range(w)),
+                                   "entry": "initialize-none", "seed": seed})
+
+    # (2) width formulas at the sizes where a count changes
+    for m_ in (2, 3, 4, 5, 7, 8, 9, 15, 16, 17, 31, 32, 33):
+        n0 = max(1, clog2(m_))
+        for n in (n0, n0 + 1):
+            if n > 6:
+                continue
+            for opt in ({"aux": False}, {"aux": True}, None):
+                if m_ == 2 and opt and opt.get("aux") and n >= 2:
+                    continue                    # needs a pivot step with a 0-qubit work register: see boundary_probes
+                add(f"pivot aux count m={m_}", {"kind": "width", "cls": "PivotInitialize", "p": {"n": n, "m": m_, "opt": opt}})
+    for n in (4, 5, 6):
+        for m_ in (8, 9):
+            add("pivot n>=5 and controls<=ceil(n/2)", {"kind": "width", "cls": "PivotInitialize",
+                                                       "p": {"n": n, "m": m_, "opt": {"aux": False}}})
+    for n in (1, 2):
+        for k in (1, 2, 3, 4, 5, 8, 9):
+            add(f"mixed control register k={k}", {"kind": "width", "cls": "MixedInitialize",
+                                                  "p": {"n": n, "k": k, "classical": True, "reset": bool(k % 2)}})
+    for k in (4, 5):
+        add(f"mixed control register k={k}", {"kind": "width", "cls": "MixedInitialize",
+                                              "p": {"n": 2, "k": k, "classical": False, "reset": False}})
+    extra_place = [("MixedInitialize", {"n": 1, "k": 1, "classical": True, "reset": True}, "mixed k=1 (no control qubit)"),
+                   ("MixedInitialize", {"n": 1, "k": 4, "classical": True, "reset": False}, "mixed k=4"),
+                   ("MixedInitialize", {"n": 1, "k": 5, "classical": True, "reset": False, "probs": True}, "mixed k=5"),
+                   ("MixedInitialize", {"n": 1, "k": 5, "classical": True, "reset": True}, "mixed k=5"),
+                   ("MixedInitialize", {"n": 2, "k": 4, "classical": False, "reset": False}, "mixed k=4"),
+                   ("PivotInitialize", {"n": 3, "m": 4, "opt": {"aux": True}}, "pivot aux m=4"),
+                   ("PivotInitialize", {"n": 3, "m": 7, "opt": {"aux": True}}, "pivot aux m=7"),
+                   ("PivotInitialize", {"n": 3, "m": 8, "opt": {"aux": True}}, "pivot aux m=8"),
+                   ("PivotInitialize", {"n": 4, "m": 9, "opt": {"aux": True}}, "pivot aux m=9"),
+                   ("PivotInitialize", {"n": 5, "m": 8, "opt": {"aux": False}}, "pivot n=5 dirty v-chain"),
+                   ("PivotInitialize", {"n": 5, "m": 9, "opt": {"aux": False}}, "pivot n=5 Mcg"),
+                   ("CvoqramInitialize", {"n": 4, "m": 3, "opt": {"with_aux": True}}, "cvoqram with_aux n=4"),
+                   ("CvoqramInitialize", {"n": 4, "m": 3, "opt": {"with_aux": False}}, "cvoqram without aux n=4"),
+                   ("FnPointsInitialize", {"n": 3, "m": 2}, "fnpoints n=3"),
+                   ("LowRankInitialize", {"n": 2, "opt": None, "vec": "product"}, "lowrank e_bits=0"),
+                   ("LowRankInitialize", {"n": 3, "opt": None, "vec": "product"}, "lowrank e_bits=0"),
+                   ("LowRankInitialize", {"n": 4, "opt": {"lr": 2}, "vec": "haar"}, "lowrank e_bits=1"),
+                   ("LowRankInitialize", {"n": 4, "opt": {"lr": 1}, "vec": "haar"}, "lowrank e_bits=0"),
+                   ("BaaLowRankInitialize", {"n": 3, "opt": None, "vec": "product"}, "lowrank e_bits=0"),
+                   ("SVDInitialize", {"n": 3, "opt": None, "vec": "product"}, "lowrank e_bits=0")]
+    for name, p, fam in extra_place:
+        try:
+            w = _width_of(name, p)
+        except Exception:
+            add(fam, {"kind": "width", "cls": name, "p": p})
+            continue
+        seed = rng.getrandbits(31)
+        add(fam, {"kind": "width", "cls": name, "p": p, "seed": seed})
+        if w + 1 <= 9:
+            add(fam, {"kind": "place", "cls": name, "p": p, "m": w + 1, "subset": random_subset(rng, w + 1, w),
+                      "entry": "initialize", "style": "int", "seed": seed})
+        add(fam, {"kind": "place", "cls": name, "p": p, "m": w, "subset": list(range(w))[::-1], "entry": "append",
+                  "style": "int", "seed": seed})
+        if not p.get("reset", False) and w <= 8:
+            add(fam, {"kind": "inverse", "cls": name, "p": p, "seed": seed})
+
+    # (3) options: opt_params None vs {} vs partial dicts vs explicit default values; label '' (given, but falsy)
+    opt_rows = [("TopDownInitialize", {}), ("TopDownInitialize", {"global_phase": True}), ("TopDownInitialize", {"lib": None}),
+                ("LowRankInitialize", {}), ("LowRankInitialize", {"lr": 0}), ("LowRankInitialize", {"svd": "regular"}),
+                ("LowRankInitialize", {"iso_scheme": "ccd"}), ("LowRankInitialize", {"unitary_scheme": "qsd", "lr": None}),
+                ("IsometryInitialize", {}), ("IsometryInitialize", {"scheme": None}), ("BaaLowRankInitialize", {}),
+                ("BaaLowRankInitialize", {"strategy": "greedy"}), ("BdspInitialize", {}),
+                ("UCGInitialize", {"target_state": 0}), ("UCGEInitialize", {"target_state": 0}),
+                ("UCGInitialize", {"target_state": 2}), ("UCGEInitialize", {"target_state": 2})]
+    for name, opt in opt_rows:
+        for n in (2, 3):
+            if name == "BdspInitialize" and n == 3:
+                continue
+            p = {"n": n, "opt": opt, "vec": "haar"}
+            fam = "opt_params " + (("{}" if not opt else "partial dict") if name[:3] != "UCG" else "partial dict (target_state only)")
+            seed = rng.getrandbits(31)
+            try:
+                w = _width_of(name, p)
+            except Exception:
+                add(fam, {"kind": "width", "cls": name, "p": p, "seed": seed})
+                continue
+            add(fam, {"kind": "width", "cls": name, "p": p, "seed": seed})
+            add(fam, {"kind": "place", "cls": name, "p": p, "m": w + 1, "subset": random_subset(rng, w + 1, w),
+                      "entry": "initialize", "style": "int", "seed": seed})
+            add(fam, {"kind": "place", "cls": name, "p": p, "m": w, "subset": list(range(w)), "entry": "initialize-none",
+                      "seed": seed})
+            if n == 2:
+                add(fam, {"kind": "pure", "cls": name, "p": p, "seed": seed})
+    for name, p, w in (("PivotInitialize", {"n": 3, "m": 3, "opt": {"aux": None}}, 3),
+                       ("CvoqramInitialize", {"n": 2, "m": 3, "opt": {}}, 4),
+                       ("CvoqramInitialize", {"n": 2, "m": 3, "opt": {"with_aux": None, "mcg_method": None}}, 4),
+                       ("MixedInitialize", {"n": 2, "k": 2, "classical": True, "reset": False, "opt": {}}, 3),
+                       ("MixedInitialize", {"n": 2, "k": 3, "classical": True, "reset": False, "opt": {"lr": 0}}, 4)):
+        fam = "opt_params " + ("{}" if not p["opt"] else "partial dict")
+        seed = rng.getrandbits(31)
+        add(fam, {"kind": "width", "cls": name, "p": p, "seed": seed})
+        add(fam, {"kind": "place", "cls": name, "p": p, "m": w + 1, "subset": random_subset(rng, w + 1, w),
+                  "entry": "initialize", "style": "int", "seed": seed})
+        add(fam, {"kind": "pure", "cls": name, "p": p, "seed": seed})
+    for name, spec in REG.items():
+        if spec.kind == "gate":
+            continue
+        p = {"n": max(2, getattr(spec, "nmin", 1)), "label": ""} if isinstance(spec, Dense) else \
+            ({"n": 2, "k": 2, "classical": True, "reset": False, "label": ""} if name == "MixedInitialize"
+             else {"n": 2, "m": 2 if name != "PivotInitialize" else 3, "label": ""})
+        add("label '' (given, falsy)", {"kind": "inverse", "cls": name, "p": p})
+
+    # (4) unitary() / isometry.decompose(): defensive copies and determinism at 2x2, 4x4, 8x8, 1 column / 2^n columns,
+    #     real / integer / list / Fortran-ordered input, iso and apply_a2 options
+    for n in (1, 2, 3):
+        for scheme in ("qsd", "csd", "qr"):
+            for dt in ("real", "int", "list"):
+                if scheme == "qr" and (dt == "int" or (n == 3 and dt != "real")):
+                    continue        # integer unitaries are signed permutations: zero entries, which the QR scheme does not take (C02)
+                add(f"unitary {2 ** n}x{2 ** n} input type", {"kind": "purefn", "fn": "unitary",
+                                                               "p": {"n": n, "scheme": scheme, "dtype": dt}})
+        for iso, a2 in ((0, False), (1, True), (1, False)):
+            add(f"unitary {2 ** n}x{2 ** n} iso/apply_a2", {"kind": "purefn", "fn": "unitary",
+                                                            "p": {"n": n, "scheme": "qsd", "iso": iso, "a2": a2}})
+        for scheme in ("ccd", "csd", "knill"):
+            if scheme == "knill" and n == 1:
+                continue
+            for mc in (0, n):
+                for dt in ("real", "fortran"):
+                    add(f"isometry {2 ** n} rows, {2 ** mc} column(s) input type",
+                        {"kind": "purefn", "fn": "isometry.decompose", "p": {"n": n, "scheme": scheme, "mcols": mc, "dtype": dt}})
+    return cases
+
+
+def _keys_amps(r, keys, real=False):
+    amps = r.normal(size=len(keys)) + (0 if real else 1j * r.normal(size=len(keys)))
+    amps = amps / np.linalg.norm(amps)
+    return {k: complex(a) for k, a in zip(keys, amps)}
+
+
+def sparse_requested_rows(r):
+    """(class, dictionary, opt_params, number of work qubits BEFORE the data register in the gate's qubit list, modulus only,
+    loop family).  Sizes at which every internal loop of the class runs at least twice (trip counts 0 / 1 / 2+):
+    pivot's v-chain ladder `range(2, t)` needs t = ceil(log2 m) >= 4 controls (m >= 9) and a key outside the low block;
+    cvoqram's `_mcuvchain` ladder needs a pattern with >= 4 ones (with_aux); fnpoints' ladder `range(2, n)` needs n >= 4."""
+    rows = []
+    for m_ in (9, 10):
+        forced = ["10000", "00001", "11111", "10110"]           # keys outside the low 2^t block: pivot steps are emitted
+        pool = [format(k, "05b") for k in r.permutation(32) if format(k, "05b") not in forced]
+        keys = [str(k) for k in r.permutation(forced + pool[:m_ - len(forced)])]
+        d = _keys_amps(r, keys)
+        rows.append(("PivotInitialize", d, {"aux": True}, clog2(m_) - 1, False, "pivot aux v-chain ladder, 4 controls"))
+        rows.append(("PivotInitialize", d, {"aux": False}, 0, False, "pivot without aux, 4 controls"))
+    d = _keys_amps(r, [str(k) for k in r.permutation(["100", "011", "110", "001", "111"])])
+    rows.append(("PivotInitialize", d, {"aux": True}, 2, False, "pivot aux, 3 controls (ladder runs once)"))
+    for n, keys in ((4, ["0001", "0110", "0111", "1011", "1111"]), (5, ["00100", "01010", "10111", "11110", "11111"])):
+        keys = sorted(keys, key=lambda k: (k.count("1"), k))      # CVO-QRAM's contract: non-decreasing number of ones
+        d = _keys_amps(r, keys)
+        rows.append(("CvoqramInitialize", d, {"with_aux": True}, n, False, f"cvoqram _mcuvchain ladder, pattern with {n} ones"))
+        if n == 4:
+            rows.append(("CvoqramInitialize", d, {"with_aux": False}, 1, False, "cvoqram without aux, pattern with 4 ones"))
+    rows.append(("FnPointsInitialize", {"0001": 0, "0110": 1, "1011": 2, "1111": 1, "0100": 2}, {"n_output_values": 3}, 0, True,
+                 "fnpoints ladder range(2, n), n = 4"))
+    rows.append(("FnPointsInitialize", {"001": 0, "110": 1, "111": 1}, {"n_output_values": 2}, 0, True,
+                 "fnpoints ladder range(2, n), n = 3 (runs once)"))
+    return rows
+
+
+def run_sparse_requested(ctx, case):
+    """The sparse initializers through `Cls.initialize(host, dict, qubits=<permuted subset>)` on a host with one spectator in
+    |+>: the data qubits (given order, int(key, 2) little-endian) hold exactly the requested amplitudes (FnPoints: modulus
+    1/sqrt(m) on the listed points), EVERY work qubit is back in |0>, the spectator is untouched."""
+    from qiskit import QuantumCircuit
+    r = _rng(case["seed"])
+    rows = sparse_requested_rows(r)
+    cname, d, opt, before, modulus, fam = rows[case["row"]]
+    key = f"requested:{cname}:{fam}"
+    cls = REG[cname].cls()
+    try:
+        g = cls(dict(d), opt_params=dict(opt))
+        w, n = g.num_qubits, len(next(iter(d)))
+        mm = w + 1
+        rr = _rng(case["seed"] + 1)
+        sub = [int(q) for q in rr.permutation(mm)[:w]]
+        spect = [q for q in range(mm) if q not in sub][0]
+        host = QuantumCircuit(mm)
+        host.h(spect)
+        cls.initialize(host, dict(d), qubits=sub, opt_params=dict(opt))
+        psi0 = np.zeros(2 ** mm, dtype=complex)
+        psi0[0] = 1
+        out = evolve(psi0, host)
+    except Exception as e:
+        ctx.fail(key, f"{cname}.initialize(host, {len(d)} strings on {len(next(iter(d)))} qubits, qubits=<subset>, opt_params={opt}) "
+                      f"raised {type(e).__name__}: {str(e)[:160]}", case)
+        return
+    exp = np.zeros(2 ** mm, dtype=complex)
+    for k, amp in d.items():
+        val, idx = int(k, 2), 0
+        for j in range(n):
+            if (val >> j) & 1:
+                idx |= 1 << sub[before + j]
+        a = (1 / math.sqrt(len(d))) if modulus else amp
+        for sbit in (0, 1):
+            exp[idx | (sbit << spect)] = a / math.sqrt(2)
+    err = float(np.abs(np.abs(out) - np.abs(exp)).max()) if modulus else float(np.abs(out - exp).max())
+    data = {sub[before + j] for j in range(n)}
+    work = [q for q in sub if q not in data]
+    p_work = float(sum(abs(out[i]) ** 2 for i in range(2 ** mm) if any((i >> q) & 1 for q in work)))
+    ctx.count("boundary:loops>=2:" + cname if "runs once" not in fam and "3 controls" not in fam else "boundary:loops=1:" + cname)
+    if err > TOL or p_work > TOL:
+        ctx.fail(key, f"{cname} ({fam}; {len(d)} strings on {n} qubits, opt_params={opt}) placed on qubits {sub} of {mm}: host state "
+                      f"differs from (requested state on the data qubits) x |0..0>_work x |+> by {err:.3e}; probability of a work "
+                      f"qubit not being |0>: {p_work:.3e}", case)
+    else:
+        ctx.ok(key, sample={"requested": cname, "family": fam, "subset": sub, "err": err, "p_work": p_work})
+
+
+def loop_cases(ctx):
+    """Every initializer class at a size where all of its internal loops run at least twice (placement on a permuted subset
+    with spectators, inverse, and - for the exact classes - the requested state)."""
+    rng = ctx.rng
+    cases = []
+
+    def add(cname, case):
+        case.setdefault("seed", rng.getrandbits(31))
+        cases.append(case)
+        ctx.count("boundary:loops>=2:" + cname)
+
+    for i in range(len(sparse_requested_rows(_rng(0)))):
+        cases.append({"kind": "requested", "row": i, "seed": rng.getrandbits(31)})
+    # dense classes: tree / multiplexer levels n >= 3 (n = 4 here; n = 3 is in the sweep), Schmidt rank 4
+    for name in ("TopDownInitialize", "LowRankInitialize", "SVDInitialize", "UCGInitialize", "UCGEInitialize", "IsometryInitialize",
+                 "BaaLowRankInitialize", "BlackBoxInitialize"):
+        p = {"n": 4, "opt": None, "vec": "haar"}
+        w = 5 if name == "BlackBoxInitialize" else 4
+        seed = rng.getrandbits(31)
+        add(name, {"kind": "place", "cls": name, "p": p, "m": w + 1, "subset": random_subset(rng, w + 1, w), "entry": "initialize",
+                   "style": "int", "seed": seed})
+        add(name, {"kind": "inverse", "cls": name, "p": p, "seed": seed})
+    for name, opt in (("UCGInitialize", {"target_state": 5, "preserve_previous": True}), ("UCGEInitialize", {"target_state": 10, "preserve_previous": False}),
+                      ("LowRankInitialize", {"lr": 2}), ("LowRankInitialize", {"lr": 1, "partition": [1, 3]}),
+                      ("TopDownInitialize", {"global_phase": False})):
+        p = {"n": 4, "opt": opt, "vec": "haar"}
+        seed = rng.getrandbits(31)
+        add(name, {"kind": "place", "cls": name, "p": p, "m": 5, "subset": random_subset(rng, 5, 4), "entry": "initialize",
+                   "style": "qubit", "seed": seed})
+        add(name, {"kind": "place", "cls": name, "p": p, "m": 4, "subset": list(range(4)), "entry": "initialize-none", "seed": seed})
+    # merge: m >= 3 strings and a merge step controlled by >= 2 qubits (pre-screened with the real code)
+    found = 0
+    for n, m_ in ((4, 6), (4, 7), (5, 7), (4, 5), (5, 9)):
+        for _ in range(6):
+            seed = rng.getrandbits(31)
+            if found >= 3:
+                break
+            try:
+                args, kw = REG["MergeInitialize"].inputs({"n": n, "m": m_}, _rng(seed))
+                wide = any(inst.operation.num_qubits >= 3          # Ldmcu on >= 3 qubits: a merge with >= 2 controls
+                           for inst in REG["MergeInitialize"].build(args, kw).definition.data)
+            except Exception:
+                wide = True            # reported by the placement runner
+            if wide:
+                found += 1
+                add("MergeInitialize", {"kind": "place", "cls": "MergeInitialize", "p": {"n": n, "m": m_}, "m": n + 1,
+                                        "subset": random_subset(rng, n + 1, n), "entry": "initialize", "style": "int", "seed": seed})
+                add("MergeInitialize", {"kind": "inverse", "cls": "MergeInitialize", "p": {"n": n, "m": m_}, "seed": seed})
+    # mixed: k >= 3 states, both purification modes
+    for p, w in (({"n": 2, "k": 3, "classical": False, "reset": False}, 4), ({"n": 2, "k": 4, "classical": True, "reset": False, "probs": True}, 4)):
+        seed = rng.getrandbits(31)
+        add("MixedInitialize", {"kind": "place", "cls": "MixedInitialize", "p": p, "m": w + 1, "subset": random_subset(rng, w + 1, w),
+                                "entry": "append", "style": "int", "seed": seed})
+    # pivot / cvoqram / fnpoints: also the definition-level placement and inverse at those sizes
+    for name, p, w in (("PivotInitialize", {"n": 5, "m": 9, "opt": {"aux": True}}, 8),
+                       ("CvoqramInitialize", {"n": 4, "m": 6, "opt": {"with_aux": True}}, 8),
+                       ("FnPointsInitialize", {"n": 4, "m": 4}, 9)):
+        seed = rng.getrandbits(31)
+        add(name, {"kind": "place", "cls": name, "p": p, "m": w, "subset": random_subset(rng, w, w), "entry": "initialize",
+                   "style": "int", "seed": seed})
+        if w <= 8:
+            add(name, {"kind": "inverse", "cls": name, "p": p, "seed": seed})
+    for name, p in (("BdspInitialize", {"n": 3, "opt": {"split": 1}, "vec": "haar"}), ("DcspInitialize", {"n": 3, "opt": None, "vec": "haar"})):
+        add(name, {"kind": "place", "cls": name, "p": p, "m": 8, "subset": random_subset(rng, 8, 7), "entry": "initialize",
+                   "style": "int", "seed": rng.getrandbits(31)})
+    return cases
+
+
+def boundary_probes(ctx):
+    """Boundary cases that FAIL on the unchanged tree (findings, narrow keys) and restrictions at the edge of a domain."""
+    import warnings
+    # (a) UCGInitialize / UCGEInitialize: an opt_params dictionary WITHOUT 'target_state' ({} or a partial dict) - every other
+    #     class reads a missing key as its default; here `opt_params.get("target_state")` = None goes into bin()
+    for cname in ("UCGInitialize", "UCGEInitialize"):
+        cls = REG[cname].cls()
+        for tag, opt in (("{}", {}), ("preserve_previous-only", {"preserve_previous": False})):
+            key = f"options:{cname}:opt_params-without-target_state:{tag}"
+            ctx.count("boundary:opt_params " + ("{}" if not opt else "partial dict") + " (UCG, no target_state)")
+            try:
+                with warnings.catch_warnings():
+                    warnings.simplefilter("ignore")
+                    g = cls([0.6, 0.8], opt_params=dict(opt))
+                    ref = cls([0.6, 0.8])
+                    err = float(np.abs(opmat(g.definition) - opmat(ref.definition)).max())
+                if err > TOL:
+                    ctx.fail(key, f"{cname}([.6,.8], opt_params={opt}) differs from the default gate by {err:.3e}",
+                             {"kind": "bprobe"})
+                else:
+                    ctx.ok(key)
+            except Exception as e:
+                ctx.fail(key, f"{cname}([0.6, 0.8], opt_params={opt}) raised {type(e).__name__}: {str(e)[:120]} (opt_params=None and "
+                              f"opt_params={{'target_state': 0}} build; every other initializer reads a missing key as the default)",
+                         {"kind": "bprobe", "call": f"{cname}([0.6, 0.8], opt_params={opt})"})
+    # (b) PivotInitialize(aux=True) with m = 2 strings that need a pivot step: OUTSIDE the quantifier (property C06: "pivot
+    #     requires m>=2 (m>=3 with auxiliary qubits)"): the v-chain is asked for with ONE control and an empty work register
+    #     (IndexError in _mcxvchain).  Recorded as a counted note, not judged.
+    from qclib.state_preparation import PivotInitialize
+    seen = []
+    for n, d in ((2, {"01": 0.6, "10": 0.8}), (3, {"000": 0.6, "101": 0.8})):
+        ctx.count("boundary:pivot aux count m=2 (0 work qubits, pivot step): outside the domain (m>=3 with aux)")
+        try:
+            with warnings.catch_warnings():
+                warnings.simplefilter("ignore")
+                g = PivotInitialize(dict(d), opt_params={"aux": True})
+                seen.append(f"n={n}: builds, declared {g.num_qubits}, definition {g.definition.num_qubits}")
+        except Exception as e:
+            seen.append(f"n={n}: {type(e).__name__}")
+    ctx.notes.append("domain edge (not judged; C06: pivot needs m>=3 with auxiliary qubits): PivotInitialize(2 strings needing a pivot "
+                     "step, aux=True).definition -> " + "; ".join(seen))
+    # the no-pivot-step dictionaries at m = 2 with aux=True: width row + real widths
+    for n, d in ((1, {"0": 0.6, "1": 0.8}), (2, {"00": 0.6, "01": 0.8}), (3, {"000": 0.6, "001": 0.8j})):
+        key = f"width:PivotInitialize:aux=True:m=2:no-pivot-step:n={n}"
+        ctx.count("boundary:pivot aux count m=2 (0 work qubits, no pivot step)")
+        try:
+            with warnings.catch_warnings():
+                warnings.simplefilter("ignore")
+                g = PivotInitialize(dict(d), opt_params={"aux": True})
+                decl, circ = g.num_qubits, g.definition.num_qubits
+            ctx.tie({"op": "width", "cls": "pivot", "n": n, "m": 2, "aux": True}, [f"decl {decl}", f"circ {circ}"], label=key)
+            if decl != circ or decl != n:
+                ctx.fail(key, f"PivotInitialize({d}, aux=True): declared {decl}, definition {circ}, expected {n}", {"kind": "bprobe"})
+            else:
+                ctx.ok(key)
+        except Exception as e:
+            ctx.fail(key, f"PivotInitialize({d}, opt_params={{'aux': True}}) raised {type(e).__name__}: {str(e)[:120]}",
+                     {"kind": "bprobe"})
+
+
 # ---- probes of oddities found while building this check (narrow keys, see the final report)
 
 def probes(ctx):
@@ -1628,6 +2094,11 @@ def run(ctx):
         run_case(ctx, case)
     for case in branch_cases(ctx):
         run_case(ctx, case)
+    for case in boundary_cases(ctx):
+        run_case(ctx, case)
+    for case in loop_cases(ctx):
+        run_case(ctx, case)
+    boundary_probes(ctx)
     probe_pivot_aux(ctx)
     probes(ctx)
 
@@ -1643,6 +2114,8 @@ def search(ctx, hints):
         run_case(ctx, case)
     for case in oracle_cases(ctx):
         run_case(ctx, case)
+    for case in loop_cases(ctx):
+        run_case(ctx, case)
     probes(ctx)
 
 
@@ -1650,5 +2123,8 @@ def replay(ctx, payload):
     case = payload["replay"]
     if case.get("kind") == "probe":
         probes(ctx)
+        return
+    if case.get("kind") == "bprobe":
+        boundary_probes(ctx)
         return
     run_case(ctx, case)
